@@ -314,6 +314,42 @@ static std::string step(const Toks& t0)
 		else if (k == "t") { Var* tmp = NEWVAR(ty); v = *tmp; delete tmp; } // v = Var::TYPE; i.e. v = Var(ty), the temporary in poisoned storage
 		return "ok";
 	}
+	if ((op == "seta" || op == "setd") && n >= 3) {
+		// p = Array<T> (kinds i, s, d) / p = Dic<T> (kinds i, s): the templated container assignments; the target must be REBOUND
+		// to a fresh container (every other Var sharing the old one keeps it)
+		Path p = parsePath(t[1]);
+		if (!p.ok) return "bad-op";
+		const std::string& kind = t[2];
+		if (op == "seta") {
+			if (kind != "i" && kind != "s" && kind != "d") return "bad-op";
+			Array<int> ai; Array<String> as; Array<double> ad;
+			for (size_t i = 3; i < n; i++) {
+				if (kind == "i") ai << (int)num(t[i]);
+				else if (kind == "s") as << S(unhex(t[i]));
+				else {
+					size_t cpos = t[i].find(':');
+					if (cpos == std::string::npos) return "bad-op";
+					ad << ldexp((double)num(t[i].substr(0, cpos)), -(int)num(t[i].substr(cpos + 1)));
+				}
+			}
+			Tgt g = resolveMut(p, guard);
+			if (!g.err.empty()) return g.err;
+			if (kind == "i") *g.v = ai; else if (kind == "s") *g.v = as; else *g.v = ad;
+			return "ok";
+		}
+		if (kind != "i" && kind != "s") return "bad-op";
+		for (size_t i = 3; i < n; i++) if (t[i].find('=') == std::string::npos) return "bad-op";
+		Dic<int> di; Dic<String> ds;
+		for (size_t i = 3; i < n; i++) {
+			size_t e = t[i].find('=');
+			if (kind == "i") di[S(unhex(t[i].substr(0, e)))] = (int)num(t[i].substr(e + 1));
+			else ds[S(unhex(t[i].substr(0, e)))] = S(unhex(t[i].substr(e + 1)));
+		}
+		Tgt g = resolveMut(p, guard);
+		if (!g.err.empty()) return g.err;
+		if (kind == "i") *g.v = di; else *g.v = ds;
+		return "ok";
+	}
 	if (op == "setsub" && n == 3) {
 		// p = *p + off: operator=(const char*) with a pointer into the Var's own string
 		Path p = parsePath(t[1]);
@@ -656,7 +692,7 @@ static std::string step(const Toks& t0)
 	if (n < 2) return "bad-op";
 	Path q = parsePath(t[1]);
 	if (!q.ok) return "bad-op";
-	if (op == "set" || op == "setv" || op == "app" || op == "appl" || op == "resize" || op == "remat" || op == "rem" ||
+	if (op == "seta" || op == "setd" || op == "set" || op == "setv" || op == "app" || op == "appl" || op == "resize" || op == "remat" || op == "rem" ||
 	    op == "clear" || op == "ext" || op == "clone" || op == "copy" || op == "drop" || op == "ctor")
 		return "bad-op";
 	std::string err;
